@@ -800,10 +800,20 @@ def run(ctx):
         chk = subprocess.Popen(["timeout", "600", "coqchk", "-silent", "-o", "-Q", ".", "LibaV", "LibaV.Properties_C03"],
                                cwd=str(vlib.COQ), stdout=subprocess.PIPE, stderr=subprocess.STDOUT, text=True)
     cbin, mbin = build(ctx)
+    # second node layout of the same sources (the #else /* !A_SIZE_POINTER */ arms of avl.[hc] / rbt.[hc]: separate parent and
+    # factor / color fields): the trees the iterators walk are built by the real insert / remove of that layout too
+    cfg1 = ctx.build / "cfg_unpacked.h"
+    txt1 = ctx.cfg_header().read_text().replace("#define A_SIZE_POINTER 8", "#define A_SIZE_POINTER 1")
+    if "#define A_SIZE_POINTER 1" not in txt1:
+        raise vlib.CheckError("cannot derive the unpacked configuration header")
+    if not cfg1.exists() or cfg1.read_text() != txt1:
+        cfg1.write_text(txt1)
+    ubin = ctx.cc("drv_unpacked", [H / "drv.c"], repo_srcs=["avl.c", "rbt.c"], mode="asan", defines=['A_HAVE_H="%s"' % cfg1])
     tasks = plan(ctx)
+    utasks = tasks[::3] if ctx.quick else tasks
     nw = max(2, min(vlib.NPROC // 2, 8))
     with ProcessPoolExecutor(max_workers=nw) as ex:
-        pending = ex.map(work, [(t, str(cbin), str(mbin)) for t in tasks])
+        pending = ex.map(work, [(t, str(cbin), str(mbin)) for t in tasks] + [(t, str(ubin), str(mbin)) for t in utasks])
         # second tie (translator), while the workers run the correspondence: the navigation functions and tear of avl.c / rbt.c are
         # REGENERATED from the current sources by tools/c2nav.py (both node layouts) and proved equal to the model of IterDefs.v
         # (harness/C03/TieNav.v) for every reader, fuel and argument
@@ -814,7 +824,12 @@ def run(ctx):
     stats, sizes, shapes_seen, dist = {}, {}, set(), {}
     n_cmp = n_lines = n_steps = n_diff = not_wf = 0
     suspects = []
-    for r in results:
+    ctx.cov["node_layouts"] = {"packed": len(tasks), "unpacked": len(utasks)}
+    for ri, r in enumerate(results):
+        unp = ri >= len(tasks)
+        if unp:
+            r["suspects"] = [(c, w, True) for c, w in r["suspects"]]
+            r["broken"] = ["[unpacked node layout] " + b for b in r["broken"]]
         dist[r["tag"]] = dist.get(r["tag"], 0) + r["n_cases"]
         n_cmp += r["n_cmp"]
         n_lines += r["n_lines"]
@@ -845,18 +860,20 @@ def run(ctx):
     reported = set()
     tried = 0
     # failing inputs on the real containers (insert/remove histories) first, hand-linked shapes after; short first
-    for case, why in sorted(suspects, key=lambda cw: (cw[0][:1] not in "AR", len(cw[0]))):
+    for sus in sorted(suspects, key=lambda cw: (cw[0][:1] not in "AR", len(cw[0]))):
+        case, why = sus[0], sus[1]
+        binp = ubin if len(sus) > 2 else cbin
         if tried >= 40 or len(reported) >= 5:
             break
         tried += 1
-        w = c_fails(cbin, case)
+        w = c_fails(binp, case)
         if w is None:
             continue
-        cls = failure_class(w, case)
+        cls = failure_class(w, case) + ("/unpacked-layout" if binp is ubin else "")
         if cls in reported:
             continue
         reported.add(cls)
-        report_case(ctx, cbin, case, w, cls, reported)
+        report_case(ctx, binp, case, w + (" [unpacked node layout, A_SIZE_POINTER 1]" if binp is ubin else ""), cls, reported)
 
     if chk is not None:
         out = chk.communicate()[0]
